@@ -28,6 +28,13 @@
 #include <sstream>
 #include <vector>
 #include <string>
+#include <deque>
+#include <list>
+#include <forward_list>
+#include <stack>
+#include <queue>
+#include <unordered_set>
+#include <algorithm>
 
 using namespace celma::prog_args;
 extern "C" { char pa_tmpl[1024]; unsigned char pa_env[256]; }
@@ -106,6 +113,8 @@ struct Dest {
    std::vector<bool> vb;
    std::map<int, int> kv;
    std::tuple<int, int, int> tp{0, 0, 0};
+   std::vector<std::string> vs; std::tuple<std::string, std::string, std::string> ts;
+   std::deque<int> dq; std::list<int> li; std::forward_list<int> fl; std::stack<int> sk; std::queue<int> qu; std::priority_queue<int> pq; std::multiset<int> ms; std::unordered_set<int> us;
    int n0, m0, l0, u0, d10, d20;
    Dest() : f(false), g(false), x(false), y(false), r(false), a(false), b(false), p(false), q(false) {
       n0 = n = (int) vs_u32("init"); m0 = m = (int) vs_u32("init"); l0 = l = (int) vs_u32("init"); u0 = u = (int) vs_u32("init");
@@ -161,6 +170,31 @@ void setup(Handler& ah, Dest& d, int cfg, int part /* 0 = all, 1/2 = halves for 
       if (pa_opt & 8) k->setUniqueData(true);
       ah.addArgument("t,tuple", DEST_VAR(d.tp), "tuple of three ints");
       ah.addArgument("f,flag", DEST_VAR(d.f), "flag");
+   } else if (cfg == 14) {
+      // the other standard containers (deque and list with previous content 7), and a vector whose elements are range-checked
+      d.dq.push_back(7); d.li.push_back(7);
+      celma::prog_args::detail::TypedArgBase* as[8] = { ah.addArgument("d,deque", DEST_VAR(d.dq), "deque"), ah.addArgument("l,list", DEST_VAR(d.li), "list"), ah.addArgument("w,fwd", DEST_VAR(d.fl), "forward list"),
+                              ah.addArgument("k,stack", DEST_VAR(d.sk), "stack"), ah.addArgument("q,queue", DEST_VAR(d.qu), "queue"), ah.addArgument("p,prio", DEST_VAR(d.pq), "priority queue"),
+                              ah.addArgument("m,mset", DEST_VAR(d.ms), "multiset"), ah.addArgument("u,uset", DEST_VAR(d.us), "unordered set") };
+      for (auto* a : as) { if (pa_opt & 16) a->setListSep(';'); if (pa_opt & 32) a->setTakesMultiValue(); }
+      if (pa_opt & 1) { as[0]->setClearBeforeAssign(); as[1]->setClearBeforeAssign(); }
+      if (pa_opt & 2) { as[0]->setSortData(); as[1]->setSortData(); }
+      ah.addArgument("e,elems", DEST_VAR(d.v), "checked elements")->addCheck(range(10, 100));
+      ah.addArgument("f,flag", DEST_VAR(d.f), "flag");
+   } else if (cfg == 13) {
+      // formatters: general format on a string and on a vector of strings, per-position formats on a vector and on a tuple
+      ah.addArgument("s,name", DEST_VAR(d.s), "name")->addFormat(lowercase());
+      auto* wv = ah.addArgument("w,words", DEST_VAR(d.vs), "words");
+      if (pa_opt & 2) { wv->addFormatPos(1, lowercase()); wv->addFormatPos(3, lowercase()); } else wv->addFormat(uppercase());
+      if (pa_opt & 32) wv->setTakesMultiValue();
+      auto* tv = ah.addArgument("t,triple", DEST_VAR(d.ts), "triple");
+      tv->addFormatPos(0, lowercase()); tv->addFormatPos(1, uppercase()); tv->addFormatPos(2, anycase("Ul"));
+      if (pa_opt & 32) tv->setTakesMultiValue();
+      ah.addArgument("f,flag", DEST_VAR(d.f), "flag");
+   } else if (cfg == 12) {
+      // value constraints over three arguments
+      if (in(1)) { ah.addArgument("x", DEST_VAR(d.n), "x"); ah.addArgument("y", DEST_VAR(d.m), "y"); ah.addArgument("z", DEST_VAR(d.l), "z"); ah.addConstraint(differ("x;y;z")); }
+      if (in(2)) { ah.addArgument("f,flag", DEST_VAR(d.f), "flag"); }
    } else if (cfg == 4) {
       ah.addArgument("a", DEST_VAR(d.a), "a"); ah.addArgument("b", DEST_VAR(d.b), "b"); ah.addArgument("n,number", DEST_VAR(d.n), "number");
       ah.addConstraint(one_of("a;b"));
@@ -217,6 +251,26 @@ void check_vec(const Tmpl& t, const std::string& e, const std::vector<int>& got,
    for (size_t i = 0; i < parts.size(); ++i)
       vs_assert((long) got[i] == (parts[i][0] == '#' ? slot_int(t.slots[parts[i][1] - '0']) : to_long(parts[i])), msg);
 }
+// list of strings: parts separated by ','; part = [lc|uc|Ul] followed by $<slot> or literal text
+void check_strs(const Tmpl& t, const std::string& e, const std::vector<std::string>& got, const char* msg) {
+   if (e == "_") { vs_assert(got.empty(), msg); return; }
+   auto parts = split(e, ',');
+   vs_assert(got.size() == parts.size(), msg);
+   if (got.size() != parts.size()) return;
+   for (size_t i = 0; i < parts.size(); ++i) {
+      std::string p = parts[i], mode;
+      if (p.size() > 2 && (p.compare(0, 2, "lc") == 0 || p.compare(0, 2, "uc") == 0 || p.compare(0, 2, "Ul") == 0)) { mode = p.substr(0, 2); p = p.substr(2); }
+      std::string want = p;
+      if (p[0] == '$') { const Slot& s = t.slots[p[1] - '0']; want.assign(reinterpret_cast<const char*>(s.b), s.len); }
+      for (size_t k = 0; k < want.size(); ++k) {
+         char c = want[k]; bool up = mode == "uc" || (mode == "Ul" && k == 0), lo = mode == "lc" || (mode == "Ul" && k > 0);
+         if (up && c >= 'a' && c <= 'z') c = (char) (c - 32);
+         if (lo && c >= 'A' && c <= 'Z') c = (char) (c + 32);
+         want[k] = c;
+      }
+      vs_assert(got[i] == want, msg);
+   }
+}
 void check_dests(const Tmpl& t, const Dest& d) {
    for (auto& it : t.items) {
       auto kv = split(it, '='); const std::string& k = kv[0]; const std::string& e = kv[1];
@@ -259,6 +313,17 @@ void check_dests(const Tmpl& t, const Dest& d) {
          }
       }
       else if (k == "tp") check_vec(t, e, std::vector<int>{std::get<0>(d.tp), std::get<1>(d.tp), std::get<2>(d.tp)}, "destination tp (tuple)");
+      else if (k == "dq") check_vec(t, e, std::vector<int>(d.dq.begin(), d.dq.end()), "destination dq (deque): previous content, then the values in order");
+      else if (k == "li") check_vec(t, e, std::vector<int>(d.li.begin(), d.li.end()), "destination li (list): previous content, then the values in order");
+      else if (k == "fl") { std::vector<int> v(d.fl.begin(), d.fl.end()); std::sort(v.begin(), v.end()); check_vec(t, e, v, "destination fl (forward_list) holds exactly the given values"); }
+      else if (k == "sk") { std::vector<int> v; auto c = d.sk; while (!c.empty()) { v.insert(v.begin(), c.top()); c.pop(); } check_vec(t, e, v, "destination sk (stack): values pushed in order"); }
+      else if (k == "qu") { std::vector<int> v; auto c = d.qu; while (!c.empty()) { v.push_back(c.front()); c.pop(); } check_vec(t, e, v, "destination qu (queue): values in order"); }
+      else if (k == "pq") { std::vector<int> v; auto c = d.pq; while (!c.empty()) { v.insert(v.begin(), c.top()); c.pop(); } check_vec(t, e, v, "destination pq (priority_queue) holds exactly the given values"); }
+      else if (k == "ms") check_vec(t, e, std::vector<int>(d.ms.begin(), d.ms.end()), "destination ms (multiset) holds exactly the given values");
+      else if (k == "us") { std::vector<int> v(d.us.begin(), d.us.end()); std::sort(v.begin(), v.end()); check_vec(t, e, v, "destination us (unordered_set) holds exactly the given values"); }
+      else if (k == "ws") check_strs(t, e, d.vs, "destination ws (vector<string>, formatted)");
+      else if (k == "ts") check_strs(t, e, std::vector<std::string>{std::get<0>(d.ts), std::get<1>(d.ts), std::get<2>(d.ts)}, "destination ts (tuple of strings, formatted per position)");
+      else if (k == "ls") check_strs(t, e, std::vector<std::string>{d.s}, "destination s (string, formatted)");
       else if (k == "bs") check_int(t, e, (int) d.bs.to_ulong(), 0, "destination bs (bitset)");
    }
 }
@@ -379,7 +444,14 @@ HX void hx_split(uint64_t nw, uint64_t wl, uint64_t quoting) {
       for (uint64_t k = 0; k < wl; ++k) { unsigned char c = b[k]; vs_assume(c >= ' ' && c < 127); w += (char) c; }
       if (quoting == 0) { for (char c : w) { if (c == ' ' || c == '"' || c == '\'' || c == '\\') esc += '\\'; esc += c; } }
       else if (quoting == 1) { for (char c : w) vs_assume(c != '"' && c != '\\'); esc = "\"" + w + "\""; }
-      else { for (char c : w) vs_assume(c != '\'' && c != '\\'); esc = "'" + w + "'"; }
+      else if (quoting == 2) { for (char c : w) vs_assume(c != '\'' && c != '\\'); esc = "'" + w + "'"; }
+      else if (quoting == 3) {          // quoting in parts: only the characters that need it are wrapped in double quotes / escaped
+         for (char c : w) { if (c == ' ' || c == '\'') { esc += '"'; esc += c; esc += '"'; } else if (c == '"' || c == '\\') { esc += '\\'; esc += c; } else esc += c; }
+      } else {                            // the first character in single quotes, the rest of the word behind the closing quote
+         vs_assume(w[0] != '\'' && w[0] != '\\');
+         esc = std::string("'") + w[0] + "'";
+         for (size_t k = 1; k < w.size(); ++k) { char c = w[k]; if (c == ' ' || c == '"' || c == '\'' || c == '\\') esc += '\\'; esc += c; }
+      }
       words.push_back(w);
       if (i) line += ' ';
       line += esc;
@@ -414,6 +486,45 @@ HX void hx_pa_env(uint64_t cfg, uint64_t mode) {
    judge(t, rc, d);
 }
 
+// C04/C07: program names (argv[0]) of any length when the name of the environment variable is derived from it
+HX void hx_pa_env_name(uint64_t namelen, uint64_t slashes) {
+   Dest d;
+   Handler ah(Handler::hfEnvVarArgs);
+   setup(ah, d, 0, 0);
+   std::string name(namelen, 'p');
+   if (slashes && namelen > 4) { name[0] = '/'; name[namelen / 2] = '/'; }
+   if (namelen > 2) { unsigned char c = vs_u8("namechar"); vs_assume(c != 0); name[namelen - 2] = (char) c; }
+   char* a0 = new char[name.size() + 1]; std::memcpy(a0, name.c_str(), name.size() + 1);
+   char a1[] = "-f"; char* argv[] = {a0, a1, nullptr};
+   int rc = guarded([&] { ah.evalArguments(2, argv); });
+   delete[] a0;
+   vs_assert(rc == 0 && d.f, "the length of the program name does not matter: the command line is evaluated");
+}
+
+// C07: the words delivered through the program-argument file $HOME/.progargs/prog.pa.  Words before the marker "\x02" go into
+// the file (a word "\x03" ends a file line), the rest on argv.  mode bit 0: the last file line has no trailing newline;
+// bit 1: a comment line and an empty line are put in front.
+HX void hx_pa_file(uint64_t cfg, uint64_t mode) {
+   Tmpl t; parse(t);
+   Dest d;
+   Handler ah(Handler::hfReadProgArg);
+   setup(ah, d, (int) cfg, 0);
+   std::string content = (mode & 2) ? "# a comment line\n\n" : ""; std::vector<std::string> cmd; bool in_file = true, line_open = false;
+   for (auto& w : t.words) {
+      if (w == "\x02") { in_file = false; continue; }
+      if (!in_file) { cmd.push_back(w); continue; }
+      if (w == "\x03") { content += '\n'; line_open = false; continue; }
+      if (line_open) content += ' ';
+      content += w; line_open = true;
+   }
+   if (line_open && !(mode & 1)) content += '\n';
+   vs_setenv("HOME", "/tmp/vs_home");
+   vs_file("/tmp/vs_home/.progargs/prog.pa", content.data(), content.size());
+   Argv av(cmd);
+   int rc = guarded([&] { ah.evalArguments(av.argc(), av.argv()); });
+   judge(t, rc, d);
+}
+
 // C08: the same key in two member handlers is refused
 HX void hx_pa_group_dup(uint64_t mode, uint64_t) {
    int x = 0, y = 0;
@@ -437,6 +548,25 @@ HX void hx_pa_group_dup(uint64_t mode, uint64_t) {
    });
    vs_assert(rc != 2, "only std::exception");
    vs_assert((rc == 1) == (mode != 2), "the same key in two member handlers is refused (at definition or at evaluation)");
+}
+// C08: every combination of key forms in two member handlers: refused iff they share a short or a long key
+HX void hx_pa_group_keys(uint64_t first, uint64_t second) {
+   static const char* const FIRST[] = {"q", "quiet", "q,quiet"};
+   static const char* const SECOND[] = {"q", "quiet", "q,quiet", "x,quiet", "q,other", "x", "other", "x,other", "quiet,x", "other,q"};
+   static const bool CLASH[3][10] = { {true, false, true, false, true, false, false, false, false, true},
+                                      {false, true, true, true, false, false, false, false, true, false},
+                                      {true, true, true, true, true, false, false, false, true, true} };
+   int x = 0, y = 0;
+   int rc = guarded([&] {
+      auto h1 = Groups::instance().getArgHandler("first", 0);
+      auto h2 = Groups::instance().getArgHandler("second", 0);
+      h1->addArgument(FIRST[first], DEST_VAR(x), "x");
+      h2->addArgument(SECOND[second], DEST_VAR(y), "y");
+      char a0[] = "prog"; char* argv[] = {a0, nullptr};
+      Groups::instance().evalArguments(1, argv);
+   });
+   vs_assert(rc != 2, "only std::exception");
+   vs_assert((rc == 1) == CLASH[first][second], "a key (short or long) defined in one member handler is refused in another member handler, other keys are accepted");
 }
 // C04: program-argument file source: $HOME/.progargs/<prog>.pa cannot be opened (argv[0] of symbolic length)
 HX void hx_pa_progfile(uint64_t, uint64_t) {
